@@ -63,7 +63,7 @@ def gen_transfer_schedule(rnd, idn, faults):
     for _ in range(rnd.choice([0, 1])):
         st += [step('scrape', i=1), step('scrape', i=2)]
     c = step('cycle')                            # the relief transfer starts
-    kind = rnd.choice(['lost', 'shrink', 'recreate', 'restart', 'none']) if faults else 'none'
+    kind = rnd.choice(['lost', 'shrink', 'recreate', 'restart', 'none', 'rejlater']) if faults else 'none'
     if kind == 'lost':
         c['postFail'] = [False, True, False, False]
         if rnd.random() < 0.5:
@@ -81,6 +81,20 @@ def gen_transfer_schedule(rnd, idn, faults):
             kind = 'none'
         cc = step('cycle', i=2)
         st += [cc, step('scrape', i=2, on=True)]
+    if kind == 'rejlater':
+        # while the move is under way the destination (and the source) are sent further updates that they refuse: a new
+        # target appears and the reload of Prometheus fails on the shard that is to get it, once or twice
+        st += [step('scrape', i=2), step('scrape', i=1)]
+        t3 = 3
+        st += [step('remove', t=t3)] if any(x['a'] == 'add' and x['t'] == t3 for x in st) else []
+        st += [step('add', t=t3), step('probe', t=t3)]
+        for _ in range(rnd.choice([1, 2])):
+            cc = step('cycle')
+            cc['postFail'] = [True, True, False, False]
+            cc['rej'] = [True, True, False, False]
+            st.append(cc)
+            st += [step('scrape', i=2)] * rnd.choice([0, 1])
+        kind = 'none'
     for _ in range(rnd.choice([0, 1, 2])):
         st += [step('scrape', i=1), step('scrape', i=2)]
     if kind == 'shrink':
@@ -395,6 +409,12 @@ def model_runs(prop, tier):
         runs.append(('liveness', model_cfg('KFair', 'EventuallyConverged', 0, 0, 'All')))
     else:
         runs.append(('liveness', model_cfg('KFair', 'EventuallyConverged', 0 if f else 1, f, 'All', live=True)))
+    # a fault-free cycle that changed nothing is a fixpoint: whether a cycle acts does not depend on map order or random picks
+    big = model_cfg('StSpec', 'Fixpoint', 1, 0, 'All').replace('MaxN = 3', 'MaxN = 2').replace('KOpts <- Opts', 'KOpts <- OptsBig').replace('Sizes <- SizeSet', 'Sizes <- SizeBig')
+    runs.append(('fixpoint-big', big, 'MCStable'))
+    if tier != 'quick':
+        std = model_cfg('StSpec', 'Fixpoint', 1 if f else 2, f, 'All', live=True).replace('KOpts <- Opts', 'KOpts <- OptsStd').replace('Sizes <- SizeSet', 'Sizes <- SizeStd')
+        runs.append(('fixpoint-std', std, 'MCStable'))
     return runs
 
 
@@ -485,9 +505,10 @@ def run_loop(prop, tier, scratch, faults, replay=None):
         runs[s['id']]['expectConverge'] = s['expectConverge']
     # (a) the exhaustive small model
     mc = dict(distinct=0, generated=0)
-    for name, cfg in model_runs(prop, tier):
-        res = C.tlc(sd, 'MCKvass', 'mc-%s.cfg' % name, cfg_text=cfg, timeout=7200, heap='12g', workers=8)
-        C.require_ok(res, 'MCKvass ' + name)
+    for run in model_runs(prop, tier):
+        name, cfg, module = run[0], run[1], (run[2] if len(run) > 2 else 'MCKvass')
+        res = C.tlc(sd, module, 'mc-%s.cfg' % name, cfg_text=cfg, timeout=7200, heap='12g', workers=8)
+        C.require_ok(res, module + ' ' + name)
         mc['distinct'] += res['distinct']
         mc['generated'] += res['generated']
     # (b) trace validation per option preset
@@ -529,6 +550,7 @@ def run_loop(prop, tier, scratch, faults, replay=None):
         for c in runs[s['id']]['cycles']:
             pairs.append(dict(id=c['in']['id'], run=s['id'], step=c['step'], **{'in': c['in'], 'out': c['out']}))
     C.write_ndjson(os.path.join(sd, 'pairs.ndjson'), pairs)
+    CY.write_no_groups(sd, pairs)
     ev = C.tlc(sd, 'RebalanceEval', 'eval.cfg', cfg_text='', workers=1, timeout=3000, heap='12g')
     C.require_ok(ev, 'RebalanceEval (closed-loop cycles)')
     cviol = C.read_ndjson(os.path.join(sd, 'viol.ndjson'))
